@@ -737,6 +737,7 @@ fn update_stages(
                     assert(sound(gs1, global_stages@, stage, tf)) by {
                         assert(forall|y: u32| (0u32 | y) == y) by(bit_vector);
                         assert(forall|x: u32, y: u32| #[trigger] (x | y) == (y | x)) by(bit_vector); // the union may be written either way round
+                        assert(forall|y: u32| #[trigger] (y | y) == y) by(bit_vector); // .. and a new entry may start from the stage itself instead of NONE
                         if global.name is Some { assert(tf(global.name->0)); }
                     }
                     assert(mono(gs1, global_stages@));
